@@ -676,3 +676,8 @@ func exportedEntry(fn *ssa.Function) bool {
 	}
 	return true
 }
+
+func init() {
+	registry["C04"].Meta.Rules["C04.11"] = "a write of element bytes stays inside the dataset: WriteAtAddress at the dataset's data address and writeChunkedData are reached only after the byte count was compared for equality with the dataset's dataSize and a mismatch returned an error (a buffer that is merely not shorter runs past the dataset into the objects allocated behind it) (shared with C01.3)"
+	registry["C04"].Rules = append(registry["C04"].Rules, func(c *Ctx, r *Result) { sizeDisciplineRule(c, r, "C04.11") })
+}
